@@ -1053,7 +1053,7 @@ def run(tier, seed):
         "small scope: every count vector with entries <= 3 over 4 categories (256 columns) for 3 (quick) / 7 "
         "(thorough) value assignments; 12% large-N near-tie cases; ~6% DOMINANT-VECTOR cases (2^20..2^24 "
         "respondents: all but <= 1e-6 of a vector in one valued category / everybody in categories WITHOUT a "
-        "value while the base is not 0 (scale mean, stddev, stderr NaN, never 0) / all but <= 1e-6 unvalued); "
+        "value while the base is not 0 (scale mean, stddev, stderr NaN, never 0) / all but <= 1e-6 unvalued / `single_valued`: every numeric-valued respondent in ONE category, others in categories without a value - theorem C14_zero_spread), 60% of them with every numeric value multiplied by 12500 / 100000 or shifted by 30000 / 100000; "
         "READ-ORDER leg on every third small case (common_cases.late_reads: all scale outputs of slices and "
         "strands re-read after every other public read of a second partition); DISPLAY-ORDER leg on every small "
         "slice (cubepart._rows_/_columns_dimension_numeric_values, _have_numeric_value, "
